@@ -27,6 +27,12 @@ fn ser(toks: &[&str]) -> String {
     let rest = &toks[1 + used..];
     let pend: u32 = rest[3].parse().unwrap();
     let mut writer = ScriptWriter::new(parse_wsched(rest[0]), parse_budget(rest[1]), rest[2] == "1", pend & 2 != 0);
+    if let Some((path, keep)) = built.shrink.clone() {
+        writer.on_first_write = Some(Box::new(move || {
+            let f = std::fs::OpenOptions::new().write(true).open(&path).unwrap();
+            f.set_len(keep).unwrap();
+        }));
+    }
     let res = futures_lite::future::block_on(write_http_response(&mut writer, &built.response, close));
     let r = match &res {
         Ok(()) => "ok".to_string(),
